@@ -1,5 +1,5 @@
 """Registry: property id -> rule set, level and explanations."""
-from . import p_symbols, p_rs, p_charset, p_modes, p_macro, p_plan, p_codec, p_wire, p_bitmap, p_place, p_panic, p_b256
+from . import p_symbols, p_rs, p_charset, p_modes, p_macro, p_plan, p_codec, p_wire, p_bitmap, p_place, p_panic, p_b256, p_calib
 
 PROPS = {}
 
@@ -283,3 +283,16 @@ NOT_APPLICABLE = {
            "bitmap; no table, guard or ordering clause of the property is visible in the shape of the code, and a rule "
            "matching the two-line pixel/unicode arithmetic would be a frozen source fragment. No sound static argument in reach.",
 }
+
+
+# ---- thorough tier: release-configuration pass of the MIR rules + calibration against mutants -------------
+_REL = {
+    "C08": [p_bitmap.dom_bitmap], "C11": [p_wire.dom_errcls], "C13": [p_modes.dom_mode, p_modes.fld_enc],
+    "C16": [p_macro.dom_macro, p_macro.fld_input, p_macro.fnc1], "C18": [p_plan.sync, p_plan.plan_mono],
+    "C19": [p_plan.prune_every, p_plan.fanout], "C01": [p_macro.fld_input], "C04": [p_b256.dec_b256],
+}
+for _pid, _spec in PROPS.items():
+    _spec.setdefault("thorough_rules", [])
+    for _r in _REL.get(_pid, []):
+        _spec["thorough_rules"].append(p_calib.in_release(_r))
+    _spec["thorough_rules"].append(p_calib.calibration(_pid))
